@@ -272,6 +272,12 @@ func Run(a tr.Args) error {
 		if k%6 == 5 {
 			burst, n = 2, 10*per
 		}
+		if k == 4 {
+			// once per run: several thousand handlers queued before the loop starts (whatever a poller
+			// does per batch - buffers it keeps or drops, counters it updates in bulk - sees a batch far
+			// larger than any ordinary one)
+			burst, n, ps = 1, 40*per, posters
+		}
 		if !round(r, ps, n, nestEvery, budget, burst) {
 			sum.Notes = fmt.Sprintf("round %d got stuck; stopped", k)
 			break
